@@ -51,6 +51,12 @@ CORPUS = [
     (64, dict(method='pit', dim=1, fold=False, auto=False, userpit='some', ufold='same', train=False, multi=False, excl=False, bnhp=True)),
     (65, dict(method='sn', dim=2, train=False, multi=False, bnhp=True)),
     (66, dict(method='mps', dim=2, train=False, multi=False, bnhp=True)),
+    # the same conv + BatchNorm modules applied at two call sites
+    (71, dict(method='pit', dim=2, fold=True, auto=True, userpit='none', train=False, multi=False, excl=False, twice=True)),
+    (72, dict(method='pit', dim=1, fold=True, auto=False, userpit='all', ufold='same', train=True, multi=False, excl=False, twice=True)),
+    (71, dict(method='pit', dim=1, fold=False, auto=True, userpit='none', train=False, multi=False, excl=False, twice=True)),
+    (72, dict(method='sn', dim=2, train=False, multi=False, twice=True)),
+    (71, dict(method='mps', dim=2, train=True, multi=False, twice=True)),
     # forward() branching on self.training, model handed over in training mode
     (51, dict(method='pit', dim=2, fold=False, auto=True, userpit='none', train=True, multi=False, excl=False, tbranch='logsoftmax')),
     (52, dict(method='pit', dim=1, fold=True, auto=True, userpit='none', train=True, multi=False, excl=False, tbranch='aux')),
@@ -72,6 +78,7 @@ def gen_cases(ctx):
         nonlocal k
         k += 1
         cfg['mixed'] = rng.random() < 0.45      # some modules flipped against the root's mode (frozen BN / Dropout ...)
+        cfg['twice'] = rng.random() < 0.2         # a conv(+BatchNorm) pair invoked at two call sites of forward()
         if not cfg.get('integer'):
             cfg['bnhp'] = rng.random() < 0.6     # BatchNorm with non-default eps / momentum / affine and small running variances
         cases.append((base + k, cfg))
@@ -108,8 +115,8 @@ def gen_cases(ctx):
 
 def cfg_tag(cfg):
     if cfg['method'] != 'pit':
-        return '%s%s%s:%s' % ('mixed-flags:' if cfg.get('mixed') else '', ('training-branch:' if cfg.get('tbranch') else '') + ('bn-hp:' if cfg.get('bnhp') else ''), cfg['method'], 'train' if cfg['train'] else 'eval')
-    return ('mixed-flags:' if cfg.get('mixed') else '') + ('training-branch:' if cfg.get('tbranch') else '') + ('bn-hp:' if cfg.get('bnhp') else '') + 'pit:%s:%s:%s%s:%s' % ('auto' if cfg['auto'] else 'import', 'userpit-' + cfg.get('userpit', 'none'), 'fold' if cfg['fold'] else 'nofold',
+        return '%s%s%s:%s' % ('mixed-flags:' if cfg.get('mixed') else '', ('training-branch:' if cfg.get('tbranch') else '') + ('bn-hp:' if cfg.get('bnhp') else '') + ('two-call-sites:' if cfg.get('twice') else ''), cfg['method'], 'train' if cfg['train'] else 'eval')
+    return ('mixed-flags:' if cfg.get('mixed') else '') + ('training-branch:' if cfg.get('tbranch') else '') + ('bn-hp:' if cfg.get('bnhp') else '') + ('two-call-sites:' if cfg.get('twice') else '') + 'pit:%s:%s:%s%s:%s' % ('auto' if cfg['auto'] else 'import', 'userpit-' + cfg.get('userpit', 'none'), 'fold' if cfg['fold'] else 'nofold',
                                   ':int' if cfg.get('integer') else '', 'train' if cfg['train'] else 'eval')
 
 
